@@ -59,11 +59,13 @@ def wrapper_cases(seed, tier, real_t=np.float64):
         # set_fixed_val scalar / vector
         f = A(ny, nx); v = float(r.normal())
         k = spne.gen_set_fixed_val_pyst_kernel_2d(real_t=real_t)
-        add("set_fixed_val_2d", {**sz, "fixed_val": real_t(v)}, {"field": f}, lambda k=k, f=f, v=v: k(field=f, fixed_val=v), "set_fixed_val_2d")
+        add("set_fixed_val_2d", {**sz, "fixed_val": real_t(v)}, {"field": f}, lambda k=k, f=f, v=v: k(field=f, fixed_val=v), "set_fixed_val_2d",
+            ref=lambda b, v=v: {"field": np.full_like(b["field"], v)})
         vf = A(2, ny, nx); vv = [float(x) for x in r.normal(size=2)]
         k = spne.gen_set_fixed_val_pyst_kernel_2d(real_t=real_t, field_type="vector")
         add("set_fixed_val_vec_2d", {**sz, "vx": real_t(vv[0]), "vy": real_t(vv[1])}, {"vector_field": vf},
-            lambda k=k, vf=vf, vv=vv: k(vector_field=vf, fixed_vals=vv), "set_fixed_val_2d[vector]")
+            lambda k=k, vf=vf, vv=vv: k(vector_field=vf, fixed_vals=vv), "set_fixed_val_2d[vector]",
+            ref=lambda b, vv=vv: {"vector_field": np.zeros_like(b["vector_field"]) + np.array(vv).reshape(2, 1, 1)})
         # boundaries, widths incl. wider than half the grid
         for w in ([1, 3] if tier == "quick" else [1, 2, 3, 4, 6]):
             f = A(ny, nx); v = float(r.normal())
@@ -74,18 +76,22 @@ def wrapper_cases(seed, tier, real_t=np.float64):
             vf = A(2, ny, nx); vv = [float(x) for x in r.normal(size=2)]
             k = spne.gen_set_fixed_val_at_boundaries_pyst_kernel_2d(real_t=real_t, width=w, field_type="vector")
             add("set_boundary_vec_2d", {**sz, "width": w, "vx": real_t(vv[0]), "vy": real_t(vv[1])}, {"vector_field": vf},
-                lambda k=k, vf=vf, vv=vv: k(vector_field=vf, fixed_vals=vv), f"set_fixed_val_at_boundaries_2d[vector,w={w}]")
+                lambda k=k, vf=vf, vv=vv: k(vector_field=vf, fixed_vals=vv), f"set_fixed_val_at_boundaries_2d[vector,w={w}]",
+                ref=lambda b, w=w, vv=vv: {"vector_field": np.where(R.ring_mask(b["vector_field"].shape[1:], w)[None], np.array(vv).reshape(2, 1, 1), b["vector_field"])})
         # elementwise
         a, b, o = A(ny, nx), A(ny, nx), A(ny, nx)
         k = spne.gen_elementwise_sum_pyst_kernel_2d(real_t=real_t)
         add("elementwise_sum_2d", sz, {"sum_field": o, "field_1": a, "field_2": b},
-            lambda k=k, a=a, b=b, o=o: k(sum_field=o, field_1=a, field_2=b), "elementwise_sum_2d")
+            lambda k=k, a=a, b=b, o=o: k(sum_field=o, field_1=a, field_2=b), "elementwise_sum_2d",
+            ref=lambda b: {"sum_field": b["field_1"] + b["field_2"]})
         a, b = A(ny, nx), A(ny, nx)
         add("elementwise_sum_2d", {**sz, "out": "field_1"}, {"field_1": a, "field_2": b},
-            lambda k=k, a=a, b=b: k(sum_field=a, field_1=a, field_2=b), "elementwise_sum_2d[in place]")
+            lambda k=k, a=a, b=b: k(sum_field=a, field_1=a, field_2=b), "elementwise_sum_2d[in place]",
+            ref=lambda b: {"field_1": b["field_1"] + b["field_2"]})
         a, o = A(ny, nx), A(ny, nx)
         k = spne.gen_elementwise_copy_pyst_kernel_2d(real_t=real_t)
-        add("elementwise_copy_2d", sz, {"field": o, "rhs_field": a}, lambda k=k, a=a, o=o: k(field=o, rhs_field=a), "elementwise_copy_2d")
+        add("elementwise_copy_2d", sz, {"field": o, "rhs_field": a}, lambda k=k, a=a, o=o: k(field=o, rhs_field=a), "elementwise_copy_2d",
+            ref=lambda b: {"field": b["rhs_field"].copy()})
         a, b, o = A(ny, nx), A(ny, nx), A(ny, nx); pa, pb = (float(x) for x in r.normal(size=2))
         k = spne.gen_elementwise_saxpby_pyst_kernel_2d(real_t=real_t)
         add("elementwise_saxpby_2d", {**sz, "pa": real_t(pa), "pb": real_t(pb)}, {"sum_field": o, "field_1": a, "field_2": b},
@@ -95,7 +101,8 @@ def wrapper_cases(seed, tier, real_t=np.float64):
         a, o = A(ny, nx), A(ny, nx); v = float(r.normal())
         k = spne.gen_add_fixed_val_pyst_kernel_2d(real_t=real_t)
         add("add_fixed_val_2d", {**sz, "fixed_val": real_t(v)}, {"sum_field": o, "field": a},
-            lambda k=k, a=a, o=o, v=v: k(sum_field=o, field=a, fixed_val=v), "add_fixed_val_2d")
+            lambda k=k, a=a, o=o, v=v: k(sum_field=o, field=a, fixed_val=v), "add_fixed_val_2d",
+            ref=lambda b, v=v: {"sum_field": b["field"] + v})
         va, vo = A(2, ny, nx), A(2, ny, nx); vv = [float(x) for x in r.normal(size=2)]
         k = spne.gen_add_fixed_val_pyst_kernel_2d(real_t=real_t, field_type="vector")
         add("add_fixed_val_vec_2d", {**sz, "vx": real_t(vv[0]), "vy": real_t(vv[1])}, {"sum_field": vo, "vector_field": va},
